@@ -424,6 +424,13 @@ def fam_core(rng, tier):
                                {"a": "report_queue", "status": "SUCCESSFUL"},
                                {"a": "report_queue", "status": "FAILED", "only": ["4.3"], "p": 3},
                                {"a": "eval_commit", "ref": last_q(casc)}, {"a": "eval_pr", "p": 3}], core=True))
+    # C01/C20: an explicit branching point that is on the newest development branch but too early: the new
+    # branch would not contain the development branch just below it
+    for mode in ('queue', 'noqueue'):
+        for b, frm in (('development/11.0', 'development/4.3'), ('development/5.0', 'init'), ('development/10.5', 'development/5.1')):
+            out.append(dict(id='core/admin/create-too-early/%s/%s/%s' % (mode, b, frm), world=world('B3', mode),
+                            steps=[{"a": "admin_script", "kind": "CreateBranch", "branch": b, "from": frm,
+                                    "queued": 0}], core=True))
     # C19: a pull request is superseded: another one, branched from its source, is merged; then it is declined
     for mode in ('queue', 'noqueue'):
         out.append(dict(id='core/decline-superseded/%s' % mode, world=world('B3', mode),
